@@ -14,7 +14,7 @@ from .report import RuleResult
 from .rules_grammar import EMBEDDED, callback_rules, lexemes, transformer_methods
 from .rules_lattice import flagset
 from .rules_tables import field_default
-from .terms import (Attr, BoundMethod, Call, ClassRef, Comp, Const, Default, DictT, EnumMember, Evaluator, Ext, FuncRef,
+from .terms import (Attr, BoundMethod, Call, ClassRef, Comp, Const, Default, DictT, EnumMember, Evaluator, Ext, FuncRef, Lam,
                     Ite, Loop, New, Op, Opaque, Outcome, SliceT, Store, Sub, Sym, Term, TupleT, _State, alternatives,
                     default_inline, expand_outcomes, guards_repr, norm_guards, walk)
 from .util import all_terms, call_name, call_recv, method_calls, none_test
@@ -400,6 +400,23 @@ def _event_disjunction(ctx: Ctx, r: RuleResult):
     ED = 'HplEventDisjunction'
     key = 'event_disjunction'
     loops = [e for o in outs for e in o.effects if isinstance(e, Loop)]
+    rets = [o for o in outs if o.kind == 'return']
+    if not loops and len(rets) == 1 and isinstance(rets[0].value, Call) and isinstance(rets[0].value.func, Ext) and rets[0].value.func.name.split('.')[-1] == 'reduce' \
+            and len(rets[0].value.args) == 3 and isinstance(rets[0].value.args[0], Lam):
+        # reduce(lambda tail, event: Disjunction(event, tail), reversed(children[:-2]), Disjunction(children[-2], children[-1]))
+        lam, it, init = rets[0].value.args
+        acc_p, item_p = (Sym(f'lam:{x}') for x in lam.params) if len(lam.params) == 2 else (None, None)
+        body = lam.body
+        step_ok = isinstance(body, New) and body.cls == ED and body.get('event1') == item_p and body.get('event2') == acc_p
+        init_ok = isinstance(init, New) and init.cls == ED and init.get('event1') == Sub(CH, Const(-2)) and init.get('event2') == Sub(CH, Const(-1))
+        rest_ok = isinstance(it, Call) and isinstance(it.func, Ext) and it.func.name == 'reversed' and it.args == (Sub(CH, SliceT(None, Const(-2), None)),)
+        if step_ok and init_ok and rest_ok:
+            r.ok('event_disjunction: right fold (reduce) over the reversed prefix, seeded with the last two alternatives')
+        elif step_ok and init_ok:
+            r.fail(key + ':order', f'the fold takes the remaining alternatives as {str(it)[:60]} while nesting to the right: with 3 or more alternatives their order or membership changes', fi.where)
+        else:
+            r.fail(key + ':fold', f'reduce step / seed do not nest to the right in source order: step {str(body)[:80]}, seed {str(init)[:80]}', fi.where)
+        return
     if not loops:
         base = step = False
         for o in outs:
